@@ -335,8 +335,11 @@ class SymInputs(_Base):
                 mi = self.model_inputs(m)
             except HarnessError as he:
                 # a counterexample exists but cannot be materialised for replay (huge payload):
-                # nothing is reported for it, the path is inconclusive
-                raise E.Inconclusive(f"prove {label}: counterexample not replayable ({he})")
+                # nothing is reported for it; the obligation stays open (inconclusive) and the
+                # path goes on - a later obligation may be refuted by a replayable input
+                res.soft_inconclusive.append(f"prove {label}: counterexample not replayable ({he})")
+                ok = False
+                break
             res.failed.append(E.Failure(label, mi, list(self.ctx.taken), note))
             ok = False
             break
